@@ -14,6 +14,7 @@ import (
 	"github.com/tokenized/pkg/wire"
 
 	"verif/sim/core"
+	bw "verif/sim/worlds/blockworld"
 	nw "verif/sim/worlds/nodeworld"
 )
 
@@ -39,6 +40,14 @@ func runC06(c *core.Ctx) {
 	nTx := 1 + t.Draw(6)
 	steps := 5 + t.Draw(60)
 	m := bitcoin_reader.NewTxManager(timeout)
+	// stalled deliveries: AddTx runs on its own goroutine and may be held at the marked scheduling
+	// points between its locks and before it forwards the tx
+	parkRate := []int{0, 4, 2}[t.Draw(3)]
+	parker := bw.NewParker(func(n int) int { return t.Draw(n) }, parkRate)
+	parker.Only("TxManager.AddTx between map and tx lock", "TxManager.AddTx before send")
+	bitcoin_reader.SimYield = parker.Hook
+	defer func() { bitcoin_reader.SimYield = nil }()
+	defer parker.ReleaseAll()
 	proc := nw.NewProcessor()
 	m.SetTxProcessor(proc)
 	m.SetTxSaver(proc)
@@ -80,6 +89,33 @@ func runC06(c *core.Ctx) {
 	}
 	c.Event("config timeout=%v peers=%d txs=%d steps=%d", timeout, nPeers, nTx, steps)
 	grants := make([][]time.Time, nTx)
+	type delivery06 struct {
+		tx   int
+		done chan struct{}
+		at   time.Time
+	}
+	var inflight []*delivery06
+	pending := make([]int, nTx) // deliveries of this tx that have started and not yet returned
+	settle := func() {
+		synctest.Wait()
+		keep := inflight[:0]
+		for _, d := range inflight {
+			select {
+			case <-d.done:
+				sp := spec[d.tx]
+				if !sp.known {
+					sp.known = true
+					sp.lastGrant = d.at
+				}
+				sp.received = true
+				sp.delivered++
+				pending[d.tx]--
+			default:
+				keep = append(keep, d)
+			}
+		}
+		inflight = keep
+	}
 
 	grant := func(i int, now time.Time, peer int, how string) {
 		s := spec[i]
@@ -99,11 +135,32 @@ func runC06(c *core.Ctx) {
 		p := t.Draw(nPeers)
 		i := t.Draw(nTx)
 		s := spec[i]
+		held := parker.List()
+		if len(held) > 0 && t.Chance(1, 3) {
+			g := held[t.Draw(len(held))]
+			c.Event("release %s", g.Site)
+			c.Fault("stalled-delivery-released")
+			parker.Release(g)
+			settle()
+			continue
+		}
 		switch t.Weighted([]int{8, 5, 5, 6}) {
 		case 0: // announcement
 			got, err := m.AddTxID(ctx, peers[p], ids[i])
 			want := !s.known || (!s.received && now.Sub(s.lastGrant) >= timeout)
 			c.Event("peer%d announces tx%d -> %v", p, i, got)
+			if pending[i] > 0 {
+				// a delivery of this tx is in progress: whether it already counts is not determined
+				c.Probe("announcement-during-stalled-delivery")
+				if got {
+					s.lastGrant = now
+					delete(s.pending, p)
+				} else {
+					s.pending[p] = true
+				}
+				s.known = true
+				break
+			}
 			if err != nil || got != want {
 				c.Fail("c06.announcement-answer", fmt.Sprintf("got=%v want=%v known=%v received=%v", got, want, s.known, s.received),
 					"AddTxID(peer%d, tx%d) returned (%v,%v); reference: known=%v received=%v since-last-request=%v timeout=%v", p, i, got, err, s.known, s.received, now.Sub(s.lastGrant), timeout)
@@ -127,18 +184,23 @@ func runC06(c *core.Ctx) {
 			if s.received {
 				c.Probe("duplicate-delivery")
 			}
-			m.AddTx(ctx, interrupt, peers[p], txs[i])
+			d := &delivery06{tx: i, done: make(chan struct{}), at: now}
+			go func() {
+				m.AddTx(ctx, interrupt, peers[p], txs[i])
+				close(d.done)
+			}()
+			inflight = append(inflight, d)
+			pending[i]++
 			c.Event("peer%d delivers tx%d", p, i)
-			if !s.known {
-				s.known = true
-				s.lastGrant = now
-			}
-			s.received = true
-			s.delivered++
 		case 2: // retry poll for one peer
 			got, err := m.GetTxRequests(ctx, peers[p], 1000)
 			var want []int
+			uncertain := map[int]bool{}
 			for j, sj := range spec {
+				if pending[j] > 0 {
+					uncertain[j] = true
+					continue
+				}
 				if sj.known && !sj.received && sj.pending[p] && now.Sub(sj.lastGrant) >= timeout {
 					want = append(want, j)
 				}
@@ -153,6 +215,18 @@ func runC06(c *core.Ctx) {
 			}
 			sort.Ints(gotIdx)
 			c.Event("peer%d polls retries -> %v", p, gotIdx)
+			var certain []int
+			for _, j := range gotIdx {
+				if uncertain[j] {
+					spec[j].lastGrant = now
+					delete(spec[j].pending, p)
+				} else {
+					certain = append(certain, j)
+				}
+			}
+			gotAll := gotIdx
+			gotIdx = certain
+			_ = gotAll
 			if err != nil || fmt.Sprint(gotIdx) != fmt.Sprint(want) {
 				cls := "extra"
 				if len(gotIdx) < len(want) {
@@ -175,13 +249,20 @@ func runC06(c *core.Ctx) {
 			}
 			c.Event("time +%v", d)
 		}
-		synctest.Wait()
+		settle()
 		// processor: exactly once for everything delivered, never for anything else
 		for j, sj := range spec {
 			n := proc.Count(ids[j])
 			want := 0
 			if sj.delivered > 0 {
 				want = 1
+			}
+			if pending[j] > 0 {
+				// deliveries in progress: at most once so far
+				if n > 1 {
+					c.Fail("c06.processed-exactly-once", fmt.Sprintf("count=%d during-stalled-delivery", n), "tx%d reached the processor %d times while deliveries of it were still in progress", j, n)
+				}
+				continue
 			}
 			if n != want {
 				c.Fail("c06.processed-exactly-once", fmt.Sprintf("count=%d delivered=%d", n, min(sj.delivered, 3)), "tx%d reached the processor %d times after %d deliveries", j, n, sj.delivered)
@@ -195,6 +276,21 @@ func runC06(c *core.Ctx) {
 				c.Fail("c06.saved-exactly-once-if-relevant", fmt.Sprintf("saved=%d relevant=%v", proc2, sj.relevant), "tx%d was saved %d times (relevant=%v, deliveries=%d)", j, proc2, sj.relevant, sj.delivered)
 			}
 		}
+	}
+	// let every stalled delivery finish, then the final count must be exact
+	parker.ReleaseAll()
+	settle()
+	for j, sj := range spec {
+		want := 0
+		if sj.delivered > 0 {
+			want = 1
+		}
+		if n := proc.Count(ids[j]); n != want || pending[j] != 0 {
+			c.Fail("c06.processed-exactly-once", fmt.Sprintf("final count=%d delivered=%d", n, min(sj.delivered, 3)), "tx%d reached the processor %d times after %d deliveries (some of them stalled and overlapping)", j, n, sj.delivered)
+		}
+	}
+	if parker.Held > 0 {
+		c.Probe("run-with-stalled-deliveries")
 	}
 	c.Nontrivial()
 	m.Stop(ctx)
@@ -379,10 +475,10 @@ func init() {
 		ID: "C06", Engine: "G", Level: "exploration", Bubble: true,
 		Rule: "each run is one of two worlds inside a synctest bubble. (a) manager world: a real TxManager with its Run consumer and a counting processor/saver; 2-5 peers issue tape-chosen AddTxID / AddTx / GetTxRequests calls over 1-6 txids (three forced into one bucket), with the fake clock held (simultaneous events) or advanced by 0, 1 ms, timeout/2, timeout-1ns, timeout, timeout+1ms, 3*timeout; every answer is compared with a sequential reference, grants are checked for at most one per txid per timeout window and none after delivery, and the processor/saver counts must be exactly one per delivered (relevant) txid after every step. (b) end-to-end world: 2-4 verified real BitcoinNodes share the manager; scripted peers send inv (also the same tx from two peers in the same instant), answer getdata (classic or extended tx) or ignore it, deliver unsolicited, and the retry poll runs as time advances; getdata messages seen by the peers are the grants; non-trivial = every run; distinct = distinct hash of the canonical event log",
 		Real: append([]string{"TxManager (AddTxID, AddTx, GetTxRequests, Run, sendTx: real code)"}, nodeReal...), Stub: nodeStub,
-		Assumptions: []string{"manager calls of different peers are issued one at a time by the driver (call-granularity interleaving, including several calls at the same fake instant); interleavings inside one call (between the bucket lock and the entry lock) are not controlled by this engine",
+		Assumptions: []string{"manager calls of different peers are issued one at a time by the driver (call-granularity interleaving, including several calls at the same fake instant); deliveries (AddTx) run on their own goroutine and can be held at the two marked scheduling points (between the bucket lock and the entry lock, and before the tx is forwarded) while other calls proceed; other interleavings inside one call are not controlled by this engine",
 			"the sequential reference is the property's own rule: first announcer is asked; others are remembered; after the timeout an announcement or a retry poll re-requests; nothing is requested after delivery"},
-		FaultKinds: []string{"fragmentation", "delivery-delay"},
-		ProbeNames: []string{"announcement-while-outstanding", "re-request-after-timeout-on-announcement", "retry-granted", "unsolicited-delivery", "duplicate-delivery", "getdata-seen", "request-ignored-by-peer", "retry-request-sent", "same-tx-announced-by-two-peers-same-instant"},
+		FaultKinds: []string{"fragmentation", "delivery-delay", "stalled-delivery-released"},
+		ProbeNames: []string{"run-with-stalled-deliveries", "announcement-during-stalled-delivery", "announcement-while-outstanding", "re-request-after-timeout-on-announcement", "retry-granted", "unsolicited-delivery", "duplicate-delivery", "getdata-seen", "request-ignored-by-peer", "retry-request-sent", "same-tx-announced-by-two-peers-same-instant"},
 		Run:          runC06,
 		QuickSeconds: 20, ThoroughSeconds: 600, MinRuns: 300, BatchSize: 50, RunTimeoutSeconds: 240,
 	})
